@@ -23,6 +23,17 @@ func genChunk(t *rapid.T, label string) int {
 	return rapid.OneOf(rapid.IntRange(1, 8), rapid.IntRange(1, 8), rapid.IntRange(1, 64)).Draw(t, label)
 }
 
+// rare is true with probability 2^-k. rapid's integer ranges are heavily biased towards their lower
+// end, so small probabilities are composed from fair coin flips instead.
+func rare(t *rapid.T, label string, k int) bool {
+	for i := 0; i < k; i++ {
+		if !rapid.Bool().Draw(t, label) {
+			return false
+		}
+	}
+	return true
+}
+
 func gen(t *rapid.T) Case {
 	var c Case
 	c.Origin = "prop"
@@ -136,13 +147,13 @@ func gen(t *rapid.T) Case {
 		c.ShortReads = rapid.SliceOfN(rapid.OneOf(rapid.IntRange(1, 3), rapid.IntRange(1, 70)), 1, 5).Draw(t, "readPattern")
 	}
 	c.EOFWithData = rapid.Bool().Draw(t, "eofWithData")
-	if rapid.IntRange(0, 9).Draw(t, "seekFails") == 0 {
+	if rare(t, "seekFails", 3) {
 		c.SrcKind = "seek-error" // e.g. a pipe on stdin: has a Seek method, every call fails
 	}
 
 	// rare: lengths on the 32 KiB boundaries of io.Copy / transport buffers, and two chunks of the default 1 MiB size
-	switch rapid.IntRange(0, 159).Draw(t, "bigKind") {
-	case 0, 1, 2, 3:
+	switch {
+	case rare(t, "big", 6):
 		c.Len = rapid.SampledFrom([]int{32767, 32768, 32769, 65536, 65537, 98305}).Draw(t, "bigLen")
 		c.HostChunk = 0
 		c.OptChunk = rapid.SampledFrom([]int{0, 8192, 16384, 32767, 32768, 32769, 65536}).Draw(t, "bigChunk")
@@ -165,7 +176,10 @@ func gen(t *rapid.T) Case {
 		if ceff > 98305 {
 			ceff = 98305
 		}
-	case 4:
+		for i, k := range c.ShortReads {
+			c.ShortReads[i] = k * 997
+		}
+	case rare(t, "MiB", 10):
 		c.HostChunk, c.OptChunk, c.Feat.ChunkMin = 0, 0, 0
 		c.Len = defChunk + rapid.SampledFrom([]int{-1, 0, 1, 4097}).Draw(t, "defChunkLen")
 		ceff = defChunk
@@ -175,29 +189,31 @@ func gen(t *rapid.T) Case {
 	}
 
 	// the source fails in the middle of the stream
-	if c.Len > 0 && rapid.IntRange(0, 15).Draw(t, "readErr") == 0 {
+	if c.Len > 0 && rare(t, "readErr", 4) {
 		c.ReadErrAt = rapid.IntRange(1, c.Len).Draw(t, "readErrAt")
 	}
-	c.DescExtra = rapid.IntRange(0, 6).Draw(t, "descExtra") == 0
+	c.DescExtra = rare(t, "descExtra", 3)
 
 	// context state
-	switch rapid.IntRange(0, 39).Draw(t, "ctxKind") {
-	case 0:
+	switch {
+	case rare(t, "ctxCancelled", 5):
 		c.Ctx.Kind = "cancelled"
-	case 1:
+	case rare(t, "ctxDeadline", 5):
 		c.Ctx.Kind = "deadline"
-	case 2, 3, 4:
+	case rare(t, "ctxAtSeq", 4):
 		c.Ctx = CtxSpec{Kind: "cancel-at-seq", N: rapid.OneOf(rapid.IntRange(0, 6), rapid.IntRange(0, 40)).Draw(t, "cancelAtSeq")}
-	case 5, 6:
+	case rare(t, "ctxAfterBytes", 4):
 		c.Ctx = CtxSpec{Kind: "cancel-after-bytes", N: rapid.IntRange(0, c.Len).Draw(t, "cancelAfterBytes")}
 	}
 
 	// reference form, destination pre-state, repetition, entry point
 	c.Ref.Form = rapid.SampledFrom([]string{"", "", "", "tag", "digest", "tag+digest"}).Draw(t, "refForm")
-	if rapid.IntRange(0, 9).Draw(t, "pre") == 0 {
+	if rare(t, "pre", 3) {
 		c.Pre = "same-blob"
 	}
-	c.Again = rapid.SampledFrom([]int{0, 0, 0, 0, 0, 0, 0, 1, 2, 2}).Draw(t, "again")
+	if rare(t, "again", 2) {
+		c.Again = rapid.SampledFrom([]int{1, 2, 2}).Draw(t, "againKind")
+	}
 	if c.Again == 2 {
 		c.Len2 = rapid.SampledFrom(cands).Draw(t, "len2")
 		if c.Len2 < 0 {
@@ -207,9 +223,8 @@ func gen(t *rapid.T) Case {
 			c.Len2 = 420
 		}
 	}
-	entries := []string{"copy-layout", "copy-reg", "copy-repo"}
-	if k := rapid.IntRange(0, 19).Draw(t, "entry"); k < len(entries) {
-		c.Entry = entries[k]
+	if rare(t, "entry", 3) {
+		c.Entry = rapid.SampledFrom([]string{"copy-layout", "copy-reg", "copy-repo"}).Draw(t, "entryKind")
 	}
 
 	if !isReg {
@@ -217,7 +232,7 @@ func gen(t *rapid.T) Case {
 	}
 
 	// client options and host configuration
-	if rapid.IntRange(0, 6).Draw(t, "blobLimit") == 0 {
+	if rare(t, "blobLimit", 3) {
 		lim := rapid.SampledFrom([]int{1, ceff - 1, ceff, ceff + 1, c.Feat.ChunkMin - 1, c.Feat.ChunkMin, 2 * ceff, 1000, 100000}).Draw(t, "limit")
 		if lim < 1 {
 			lim = 1
@@ -225,11 +240,13 @@ func gen(t *rapid.T) Case {
 		c.OptLimit = lim
 		c.LimitFirst = rapid.Bool().Draw(t, "limitFirst")
 	}
-	c.Ref.Port = rapid.IntRange(0, 6).Draw(t, "port") == 0
-	c.Ref.Prefix = rapid.IntRange(0, 11).Draw(t, "prefix") == 0
-	c.Ref.NoTLS = rapid.IntRange(0, 6).Draw(t, "noTLS") == 0
-	c.Ref.Mirror = rapid.SampledFrom([]int{0, 0, 0, 0, 0, 0, 1, 2}).Draw(t, "mirror")
-	c.Ref.Auth = rapid.IntRange(0, 6).Draw(t, "auth") == 0
+	c.Ref.Port = rare(t, "port", 3)
+	c.Ref.Prefix = rare(t, "prefix", 4)
+	c.Ref.NoTLS = rare(t, "noTLS", 3)
+	if rare(t, "mirror", 3) {
+		c.Ref.Mirror = rapid.SampledFrom([]int{1, 2}).Draw(t, "mirrorPrio")
+	}
+	c.Ref.Auth = rare(t, "auth", 3)
 	c.Feat.MountGrant = rapid.Bool().Draw(t, "mountGrant")
 
 	// registry behaviour
